@@ -158,6 +158,52 @@ impl Sess {
         self.out.push(cfgline.to_string(), "ok".to_string());
     }
 
+    /// Run request lines on the REAL code only, in a separate worker on a separate directory
+    /// (`<work>/probe`), not recorded for the model: oracle-only probes for situations the model
+    /// abstracts (e.g. a kill in the middle of the 65 792 mkdirs of a pre-created tree).
+    /// `None` = the worker died at that line (the rest of the lines is sent to a fresh worker on
+    /// the same directory).
+    pub fn probe_real(&mut self, fresh: bool, lines: &[String]) -> Vec<Option<String>> {
+        use std::io::{BufRead, Write as _};
+        let dir = self.work.join("probe");
+        if fresh { let _ = std::fs::remove_dir_all(&dir); }
+        std::fs::create_dir_all(&dir).expect("probe dir");
+        let log = self.work.join("probe.log");
+        let mut out: Vec<Option<String>> = Vec::new();
+        let mut i = 0;
+        while i < lines.len() {
+            let exe = std::env::current_exe().expect("exe");
+            let mut cmd = Command::new(exe);
+            cmd.arg("worker").stdin(Stdio::piped()).stdout(Stdio::piped()).stderr(Stdio::null());
+            if self.interposed { cmd.env("LD_PRELOAD", so_path()).env("FSIO_LOG", &log); }
+            let mut child = cmd.spawn().expect("spawn probe worker");
+            let mut stdin = child.stdin.take().unwrap();
+            let mut stdout = BufReader::new(child.stdout.take().unwrap());
+            let mut ask = |l: &str| -> Option<String> {
+                if writeln!(stdin, "{l}").is_err() || stdin.flush().is_err() { return None; }
+                let mut r = String::new();
+                match stdout.read_line(&mut r) { Ok(0) | Err(_) => None, Ok(_) => Some(r.trim_end_matches('\n').to_string()) }
+            };
+            let hello = ask(&format!("dir {}", dir.display())).is_some();
+            // the first line of `lines` is the cfg line; it is repeated for every fresh worker
+            let cfg_ok = hello && ask(&lines[0]).is_some();
+            if i == 0 { out.push(if cfg_ok { Some("ok".into()) } else { None }); i = 1; }
+            let mut died = !cfg_ok;
+            while !died && i < lines.len() {
+                let r = ask(&lines[i]);
+                died = r.is_none();
+                out.push(r);
+                i += 1;
+            }
+            drop(ask);
+            drop(stdin);
+            let _ = child.wait();
+            if !died { break; }
+        }
+        let _ = std::fs::remove_file(&log);
+        out
+    }
+
     pub fn finish(&mut self) {
         if let Some(mut w) = self.worker.take() {
             drop(w.stdin);
